@@ -6,10 +6,16 @@ From stdpp Require Import gmap.
 
 (* ------------------------------------------------------------------ local changes and the in-sync flag *)
 
-(* every live entry marked in sync is held by the catalog *)
+(* every live entry marked in sync is held by the catalog (a check up to its Output while its
+   deferred-output timer is pending) *)
 Definition honest (st : lstate) (c : cat) : Prop :=
   (forall id e d, l_svcs st !! id = Some e -> se_sync e = true -> se_del e = false -> se_def e = Some d -> holds_svc c id d) /\
-  (forall id e d, l_chks st !! id = Some e -> ce_sync e = true -> ce_del e = false -> ce_def e = Some d -> holds_chk c id d).
+  (forall id e d, l_chks st !! id = Some e -> ce_sync e = true -> ce_del e = false -> ce_def e = Some d -> holds_ce c id e d).
+
+Lemma holds_upto_true b c id d : holds_chk_upto b c id d -> holds_chk_upto true c id d.
+Proof.
+  intros (r & L & E). exists r. split; [exact L|]. unfold chk_core_upto in *. destruct b; congruence.
+Qed.
 
 (* setServiceStateLocked: the new entry is in sync only when it replaces a live, in-sync entry
    that carried the same definition *)
@@ -30,15 +36,17 @@ Qed.
 Lemma add_check_flag id d tok loc st st' r k e' :
   add_check id d tok loc st = (st', r) -> l_chks st' !! k = Some e' -> ce_sync e' = true ->
   l_chks st !! k = Some e' \/
-  (k = id /\ ce_def e' = Some d /\ ce_del e' = false /\
-   exists old, l_chks st !! id = Some old /\ ce_def old = Some d /\ ce_sync old = true /\ ce_del old = false).
+  (k = id /\ ce_def e' = Some d /\ ce_del e' = false /\ ce_defer e' = false /\
+   exists old od, l_chks st !! id = Some old /\ ce_def old = Some od /\ chk_isame d od = true /\
+                  ce_sync old = true /\ ce_del old = false /\ ce_defer old = false).
 Proof.
   unfold add_check. destruct (negb (N.eqb (ck_sid d) 0) && negb (is_some (l_svcs st !! ck_sid d))); [intros [= <- _]; auto|].
   destruct (l_chks st !! id) as [old|] eqn:L.
   - intros [= <- _]. cbn. intros L' S. apply lookup_insert_Some in L' as [[<- <-]|[_ L']]; [|auto].
-    right. cbn in *. apply andb_true_iff in S as [S Sm]. apply andb_true_iff in S as [So Sd].
+    right. cbn in *. apply andb_true_iff in S as [Sf S]. apply negb_true_iff in Sf.
+    apply andb_true_iff in S as [S Sm]. apply andb_true_iff in S as [So Sd].
     apply negb_true_iff in Sd. unfold same_chk in Sm. destruct (ce_def old) as [od|] eqn:F; [|discriminate].
-    apply bool_decide_eq_true in Sm. subst od. eauto 10.
+    repeat split; auto. exists old, od. auto 10.
   - intros [= <- _]. cbn. intros L' S. apply lookup_insert_Some in L' as [[<- <-]|[_ L']]; [discriminate|auto].
 Qed.
 
@@ -67,8 +75,10 @@ Proof.
   intros A [Hs Hc]. split.
   - rewrite (add_check_svcs _ _ _ _ _ _ _ A). exact Hs.
   - intros k e' dk L' S D F.
-    destruct (add_check_flag _ _ _ _ _ _ _ _ _ A L' S) as [L|(-> & F' & _ & old & Lo & Fo & So & Do)]; [eauto|].
-    assert (dk = d) by congruence. subst dk. eauto.
+    destruct (add_check_flag _ _ _ _ _ _ _ _ _ A L' S) as [L|(-> & F' & _ & Df & old & od & Lo & Fo & Sm & So & Do & Dfo)]; [eauto|].
+    assert (dk = d) by congruence. subst dk. unfold holds_ce. rewrite Df.
+    destruct (Hc id old od Lo So Do Fo) as (rr & Lr & Er). unfold holds_ce in *. rewrite Dfo in Er.
+    exists rr. split; [exact Lr|]. rewrite Er. apply chk_isame_core. exact Sm.
 Qed.
 
 (* the other mutators only ever clear the flag *)
@@ -88,13 +98,34 @@ Proof.
   apply lookup_insert_Some in L' as [[<- <-]|[_ L']]; [discriminate|eauto].
 Qed.
 
-Theorem update_check_honest id status out st c : honest st c -> honest (update_check id status out st) c.
+Theorem update_check_honest interval id status out st c :
+  honest st c -> honest (update_check interval id status out st) c.
 Proof.
   unfold update_check. intros [Hs Hc].
   destruct (l_chks st !! id) as [e|] eqn:L; [|split; assumption].
-  destruct (ce_del e); [split; assumption|]. destruct (ce_def e) as [d|]; [|split; assumption].
-  destruct (_ && _); [split; assumption|]. split; [exact Hs|]. cbn. intros k e' dk L' S D F.
-  apply lookup_insert_Some in L' as [[<- <-]|[_ L']]; [discriminate|eauto].
+  destruct (ce_del e) eqn:D; [split; assumption|]. destruct (ce_def e) as [d|] eqn:F; [|split; assumption].
+  destruct (N.eqb (ck_status d) status && N.eqb (ck_out d) out); [split; assumption|].
+  destruct (interval && N.eqb (ck_status d) status) eqn:B.
+  - (* deferred: only the Output changes, the flag stays, a timer is pending *)
+    split; [exact Hs|]. cbn. intros k e' dk L' S' D' F'.
+    apply lookup_insert_Some in L' as [[<- <-]|[_ L']]; [|eauto]. cbn in *.
+    apply andb_true_iff in B as [_ B]. apply N.eqb_eq in B.
+    injection F' as <-. unfold holds_ce. cbn.
+    destruct (holds_upto_true _ _ _ _ (Hc id e d L S' D F)) as (r & Lr & Er).
+    exists r. split; [exact Lr|]. rewrite Er. unfold chk_core_upto. cbn. rewrite B. reflexivity.
+  - split; [exact Hs|]. cbn. intros k e' dk L' S D' F'.
+    apply lookup_insert_Some in L' as [[<- <-]|[_ L']]; [discriminate|eauto].
+Qed.
+
+(* the deferred-output timer only ever clears the flag *)
+Theorem timer_fires_honest id st c : honest st c -> honest (timer_fires id st) c.
+Proof.
+  unfold timer_fires. intros [Hs Hc].
+  destruct (l_chks st !! id) as [e|] eqn:L; [|split; assumption].
+  destruct (ce_defer e) eqn:Df; [|split; assumption].
+  split; [exact Hs|]. cbn. intros k e' dk L' S D' F'.
+  apply lookup_insert_Some in L' as [[<- <-]|[_ L']]; [|eauto]. cbn in *.
+  destruct (ce_del e); [discriminate|discriminate].
 Qed.
 
 (* a local add over a placeholder (definition nil) replaces it by a live entry that is out of
@@ -110,7 +141,7 @@ Qed.
 Theorem add_check_over_placeholder id d tok loc st e :
   ck_sid d = 0%N -> l_chks st !! id = Some e -> ce_def e = None ->
   add_check id d tok loc st =
-  (LS (l_node st) (l_svcs st) (<[id := CE (Some d) tok false false loc]> (l_chks st)), ROk).
+  (LS (l_node st) (l_svcs st) (<[id := CE (Some d) tok false false loc (ce_defer e)]> (l_chks st)), ROk).
 Proof.
   intros Z L F. unfold add_check, same_chk. rewrite Z, L, F. cbn. rewrite !andb_false_r. reflexivity.
 Qed.
@@ -183,7 +214,7 @@ Lemma remove_check_spec id st st' r :
   remove_check id st = (st', r) ->
   l_svcs st' = l_svcs st /\
   ((r = ROk /\ exists e, l_chks st !! id = Some e /\ ce_del e = false /\
-                         l_chks st' = <[id := CE (ce_def e) (ce_tok e) false true (ce_loc e)]> (l_chks st)) \/
+                         l_chks st' = <[id := CE (ce_def e) (ce_tok e) false true (ce_loc e) (ce_defer e)]> (l_chks st)) \/
    (r = RErr /\ st' = st)).
 Proof.
   unfold remove_check. destruct (l_chks st !! id) as [e|] eqn:L; [destruct (ce_del e) eqn:D|];
@@ -254,15 +285,26 @@ Proof.
   apply lookup_insert_Some in Lx as [[<- <-]|[_ Lx]]; [discriminate|eauto].
 Qed.
 
-Lemma update_check_wf id status out st : wf_local st -> wf_local (update_check id status out st).
+Lemma update_check_wf interval id status out st : wf_local st -> wf_local (update_check interval id status out st).
 Proof.
   intros (W1 & W2 & W3). unfold update_check.
   destruct (l_chks st !! id) as [e|] eqn:L; [|repeat split; assumption].
   destruct (ce_del e) eqn:D; [repeat split; assumption|]. destruct (ce_def e) as [d|] eqn:F; [|repeat split; assumption].
-  destruct (_ && _); [repeat split; assumption|]. split; [exact W1|split; [|exact W3]]. cbn.
-  intros k x Lx Dx. apply lookup_insert_Some in Lx as [[<- <-]|[_ Lx]]; [|eauto].
+  destruct (N.eqb (ck_status d) status && N.eqb (ck_out d) out); [repeat split; assumption|].
   destruct (W2 id e L D) as (d0 & F0 & Hs). assert (d0 = d) by congruence. subst d0.
-  eexists. split; [reflexivity|]. exact Hs.
+  destruct (interval && N.eqb (ck_status d) status);
+    (split; [exact W1|split; [|exact W3]]; cbn;
+     intros k x Lx Dx; apply lookup_insert_Some in Lx as [[<- <-]|[_ Lx]]; [|eauto];
+     eexists; split; [reflexivity|]; exact Hs).
+Qed.
+
+Lemma timer_fires_wf id st : wf_local st -> wf_local (timer_fires id st).
+Proof.
+  intros (W1 & W2 & W3). unfold timer_fires.
+  destruct (l_chks st !! id) as [e|] eqn:L; [|repeat split; assumption].
+  destruct (ce_defer e); [|repeat split; assumption].
+  split; [exact W1|split; [|exact W3]]. cbn.
+  intros k x Lx Dx. apply lookup_insert_Some in Lx as [[<- <-]|[_ Lx]]; [|eauto]. cbn in *. eauto.
 Qed.
 
 (* the side conditions under which a step is something the agent layer (or the servers) does *)
@@ -303,6 +345,7 @@ Proof.
   - destruct (remove_check id st) as [st1 r1] eqn:E1. intros [= <- <- _ _ _].
     split; [eapply remove_check_wf; eauto|exact Wc].
   - intros [= <- <- _ _ _]. split; [apply update_check_wf; exact W|exact Wc].
+  - intros [= <- <- _ _ _]. split; [apply timer_fires_wf; exact W|exact Wc].
   - destruct (update_sync_state g st c fs) as [[[st1 fs1] l1] f1] eqn:E1. intros [= <- <- _ _ _].
     split; [|exact Wc]. unfold update_sync_state in E1. destruct (next fs) as [o1 fx]. destruct o1; try (injection E1 as <- _ _ _; exact W).
     destruct (next fx) as [o2 fy]. destruct o2; injection E1 as <- _ _ _; try exact W. apply uss_wf_local; [exact W|exact (proj2 Wc)].
